@@ -2,6 +2,7 @@ import QV.Drive.Util
 import QV.Drive.BExpJson
 import QV.Drive.CircJson
 import QV.Model.Tools
+import QV.Model.Anf
 /-! Driver handlers for C17 (command-line tools). -/
 namespace QV.Drive.C17
 open Lean QV QV.Tools QV.Drive
@@ -95,6 +96,16 @@ def qasmOp (j : Json) : R Json := do
   let qc : QCirc := { name := name, qubitMap := qubits, numQubits := n, gates := gates }
   pure (Json.mkObj [("stdout", Json.str (exportQasm (qasmVersion ver) qc ++ "\n"))])
 
+/-- `c17.anf`: the model's `to_anf` of an expression — its sorted variables, the monomials (by
+halves and through sympy's rounds) and the expression -/
+def anfOp (j : Json) : R Json := do
+  let e ← parseBExp (← j.getObjVal? "expr")
+  let monosJ (l : List (List String)) : Json := Json.arr (l.map (fun m => toJson m)).toArray
+  pure (Json.mkObj [("vars", toJson (QV.Anf.vars e)),
+    ("monomials", monosJ (QV.Anf.anfTerms e)),
+    ("monomials_rounds", monosJ (QV.Anf.anfTermsButterfly e)),
+    ("expr", bexpJ (QV.Anf.anfOf e))])
+
 def handle (op : String) (j : Json) : Option (Except String Json) :=
   match op with
   | "c17.select" => some (select j)
@@ -102,6 +113,7 @@ def handle (op : String) (j : Json) : Option (Except String Json) :=
   | "c17.output" => some (outputOp j)
   | "c17.dimacs" => some (dimacsOp j)
   | "c17.qasm" => some (qasmOp j)
+  | "c17.anf" => some (anfOp j)
   | _ => none
 
 end QV.Drive.C17
